@@ -95,7 +95,7 @@ for d in data:
     try:
         h.fill(d)
     except Exception:
-        if not jeq(J(h), before): return "failing-fill-changed-state"
+        if not jsame(J(h), before): return "failing-fill-changed-state"
         continue
     if d[4] == 0: survivors.append(d)
     else: survivors.append(d)  # the failing quantity was never reached (e.g. cut not passed): record counts
@@ -110,9 +110,38 @@ if not jeq(J(h), J(twin)): return "final-state-differs-from-surviving-records"
     )
 
 
+def failing_weighted(chain, timeout=60):
+    """IEEE weights: a failing fill must leave the state bit-identical (an add-then-subtract rollback of a float counter
+    does not); routing values are concrete, the weights of the successful and of the failing fill are symbolic Float64."""
+    expr, qlines, depth = build(chain)
+    body = f"""
+h = fresh(MK, 1)[0]
+ok = (0.5, 0.25, 0.75, 0.0, 0)
+h.fill(ok, w0)
+before = J(h)
+bad = (0.5, 0.25, 0.75, 0.0, m)
+try:
+    h.fill(bad, w1)
+except Exception:
+    if not jsame(J(h), before): return "failing-weighted-fill-changed-state"
+    return "REACHED" if T else ""
+if m != 0: return ""
+"""
+    name = ">".join(chain)
+    return Harness(
+        f"C12/fail-ieee/{name}", [("w0", "float"), ("w1", "float"), ("m", "int")],
+        f"w0 > 0.0 and w0 < 1e300 and w1 > 0.0 and w1 < 1e300 and 1 <= m <= {2 * depth}", body, mode="ieee", timeout=timeout,
+        setup=Q_SETUP + qlines + f"\nMK = lambda: {expr}\n", tree=expr,
+        bounds=f"tree={name}; one successful fill (weight w0) then one failing fill (weight w1, failure selector 1..{2 * depth}); w0, w1 any finite positive Float64",
+    )
+
+
 def harnesses(tier):
     out = []
     leaves = [l for l in LEAF if l != "Count"]
+    for c in CONT:
+        out.append(failing_weighted([c, "Sum"]))
+        out.append(failing_weighted([c, "Bin", "Sum"] if c != "Bin" else [c, "Select", "Sum"]))
     for l in leaves:
         out.append(failing([l], 2, timeout=40))
     for c in CONT:
